@@ -265,20 +265,49 @@ def rule_r1_r2(ck, prog, cg, roles, batch=True):
                 if key in done:
                     continue
                 done.add(key)
-                cnt = strip_casts(c.f, c.n['args'][0])
-                partial = None
-                if cnt['k'] == 'ref':
-                    for (v, d) in rds.get(c.id, ()):
-                        if v != cnt['id']:
+                # what the count is in the scenario "a ticket is pending": resolved through locals (restricted flow), helper
+                # parameters and conditional expressions on the ticket
+                from .common import scenario_sources
+
+                def ticket_role(ff, cnd, ctx_):
+                    core, pol = norm_cond(ff, cnd)
+                    cn_ = strip_casts(ff, core)
+                    if cn_['k'] == 'ref' and cn_.get('id') in ticket_vars:
+                        return 'pending', pol
+                    cc = comparison(ff, core)
+                    if cc and strip_casts(ff, cc[1]).get('id') in ticket_vars and strip_casts(ff, cc[2]).get('v') == 0:
+                        if cc[0] in ('!=', '>'):
+                            return 'pending', pol
+                        if cc[0] == '==':
+                            return 'pending', (not pol)
+                    return None, pol
+
+                def classify(ff, n_, ctx_):
+                    if n_['k'] == 'call' and strip_targs(n_.get('c', '')).endswith('CircularBuffer::size'):
+                        return 'whole'
+                    if n_['k'] == 'call' and strip_targs(n_.get('c', '')) in ('std::min',):
+                        return 'bounded'
+                    if n_['k'] == 'cond' and ticket_role(ff, n_['cnd'], ctx_)[0] is None:
+                        return 'bounded'
+                    if n_['k'] == 'ref' and n_.get('sk') == 'param' and ctx_ is not None and ctx_.call is not None and not ctx_.lambda_of:
+                        return None
+                    if n_['k'] == 'member':
+                        return 'bounded'
+                    return None
+                arg_f, arg_i, arg_ctx = c.f, c.n['args'][0], c.ctx
+                hops = 0
+                while hops < 4:
+                    an = strip_casts(arg_f, arg_i)
+                    if an['k'] == 'ref' and an.get('sk') == 'param' and arg_ctx is not None and arg_ctx.call is not None and not arg_ctx.lambda_of:
+                        pi = [k_ for k_, pr in enumerate(arg_f.params) if pr['id'] == an['id']]
+                        if pi and pi[0] < len(arg_ctx.call.get('args', [])):
+                            arg_f, arg_i, arg_ctx = arg_ctx.caller, arg_ctx.call['args'][pi[0]], arg_ctx.parent
+                            hops += 1
                             continue
-                        dp = g.points[d]
-                        for (vv, st, vx) in defs_in_node(dp.f, dp.n):
-                            if vv != cnt['id'] or vx is None:
-                                continue
-                            vn = strip_casts(dp.f, vx)
-                            whole = vn['k'] == 'call' and strip_targs(vn.get('c', '')).endswith('CircularBuffer::size')
-                            if not whole:
-                                partial = dp
+                    break
+                at_pt = g.point_of.get((id(arg_ctx), strip_casts(arg_f, arg_i)['i'])) or c
+                kinds = scenario_sources(g, arg_f, arg_i, arg_ctx, {'pending': True}, ticket_role, classify, at=at_pt)
+                partial = None if kinds == {'whole'} else c
                 if partial is None:
                     ck.holds('C02.R11', c.f, 'publication-covers-snapshot', c.n, 'with a ticket pending the whole queue-size snapshot is consumed before the publication')
                     continue
